@@ -1949,6 +1949,7 @@ class XonshParser(Parser):
         self._reset(mark)
         return None
 
+    @memoize
     def star_named_expression(self) -> Any | None:
         # star_named_expression: '*' bitwise_or | named_expression
         mark = self._mark()
@@ -1984,6 +1985,7 @@ class XonshParser(Parser):
             return None
         return None
 
+    @memoize
     def named_expression(self) -> Any | None:
         # named_expression: assignment_expression | invalid_named_expression | expression !':='
         mark = self._mark()
